@@ -16,7 +16,7 @@
      so it is not recorded; names of a `:=` that already exist in the current scope are not recorded;
    - a local type declaration creates its object without position and records no Def
        (compileType: ctx.cb.NewType(name));
-   - recordCompositeLit records rec.Type(v.Type, ...) also when v.Type is nil (untyped {...} literal).
+   - recordCompositeLit records rec.Type(v.Type, ...) only when v.Type is not nil (repaired: 1324664).
 *)
 From Coq Require Import List NArith Bool.
 Import ListNotations.
@@ -161,6 +161,10 @@ Fixpoint new_names (names : list ident) (s : scope) : list ident :=
   | i :: t => match lookup_scope (iname i) s with Some _ => new_names t s | None => i :: new_names t s end
   end.
 
+(* recordCompositeLit: rec.Type(v.Type, ...) only when the literal has a type expression *)
+Definition type_node (typ : list ident) : list event :=
+  match typ with [] => [] | i :: _ => [EvType (InFile (ipos i))] end.
+
 (* ---------------------------------------------------------------- the resolver *)
 
 Fixpoint r_expr (e : env) (x : expr) {struct x} : list event :=
@@ -178,9 +182,9 @@ Fixpoint r_expr (e : env) (x : expr) {struct x} : list event :=
       let e1 := declare_own params KVar ([] :: e) in
       use_idents e ptyp ++ use_idents e rtyp ++ def_own params KVar
       ++ [EvType (InFile p); EvScope p] ++ snd (r_stmts e1 body)
-  | EComp p typ elts => use_idents e typ ++ r_exprs e elts ++ [EvType (first_pos typ); EvType (InFile p)]
+  | EComp p typ elts => use_idents e typ ++ r_exprs e elts ++ type_node typ ++ [EvType (InFile p)]
   | EXSlice p elts => r_exprs e elts ++ [EvType (InFile p)]
-  | EXMap p elts => r_exprs e elts ++ [EvType NoPos; EvType (InFile p)]
+  | EXMap p elts => r_exprs e elts ++ [EvType (InFile p)]
   end
 with r_exprs (e : env) (xs : exprs) {struct xs} : list event :=
   match xs with
@@ -516,41 +520,3 @@ Definition pkg_objs (d : decl) : list obj :=
   | DFunc _ n _ _ _ _ _ _ => objs_of [n] (InFile (ipos n)) KFunc
   end.
 Definition pkg_names_distinct (p : prog) : Prop := NoDup (map oname (flat_map pkg_objs p)).
-
-(* no untyped composite literal *)
-Fixpoint typed_expr (x : expr) : bool :=
-  match x with
-  | ELit _ | EUse _ | ESel _ _ _ => true
-  | EBin _ a b => typed_expr a && typed_expr b
-  | ECall _ f args => typed_expr f && typed_exprs args
-  | EFuncLit _ _ _ _ _ body => typed_stmts body
-  | EComp _ typ elts => match typ with [] => false | _ => typed_exprs elts end
-  | EXSlice _ elts => typed_exprs elts
-  | EXMap _ _ => false
-  end
-with typed_exprs (xs : exprs) : bool :=
-  match xs with ENil => true | ECons x t => typed_expr x && typed_exprs t end
-with typed_stmt (s : stmt) : bool :=
-  match s with
-  | SVar _ _ vals => typed_exprs vals
-  | SConst _ vals => typed_exprs vals
-  | SType _ _ => true
-  | SDefine _ vals => typed_exprs vals
-  | SAssign lhs rhs => typed_exprs lhs && typed_exprs rhs
-  | SExpr x => typed_expr x
-  | SReturn vals => typed_exprs vals
-  | SBlock _ body => typed_stmts body
-  | SIf _ init cond _ thn els => typed_stmts init && typed_expr cond && typed_stmts thn && typed_stmts els
-  | SFor _ init cond post _ body => typed_stmts init && typed_exprs cond && typed_stmts post && typed_stmts body
-  | SRange _ _ x _ body => typed_expr x && typed_stmts body
-  end
-with typed_stmts (ss : stmts) : bool :=
-  match ss with SNil => true | SCons s t => typed_stmt s && typed_stmts t end.
-Definition typed_decl (d : decl) : bool :=
-  match d with
-  | DImport _ _ _ | DType _ _ => true
-  | DVar _ _ vals => typed_exprs vals
-  | DConst _ vals => typed_exprs vals
-  | DFunc _ _ _ _ _ _ _ body => typed_stmts body
-  end.
-Definition typed_prog (p : prog) : bool := forallb typed_decl p.
